@@ -19,7 +19,8 @@ LEVEL_TEXT = ('Macros with 0..20 parameters (every call shape per parameter for 
               'ragged tail in the bounds, EXITM and SHIFT at every position (also inside nested repetitions), every ordered pair (thorough: triple) '
               'of constructs nested, BINCLUDE offset/length products and side-effect statements in bodies are assembled next to their hand '
               'expansion; the two code files must hold identical bytes at identical addresses and neither may report an error.'
-              ' SHIFT is enumerated over 1..3 formal parameters x 0..4 arguments x 0..3 shifts with ARGCOUNT/ALLARGS read each time; constructs without body lines inside macros, predefined symbols read after bodies that change them, and BINCLUDE across the 256-byte copy chunk and the 64 KiB record limit are included.')
+              ' SHIFT is enumerated over 1..3 formal parameters x 0..4 arguments x 0..3 shifts with ARGCOUNT/ALLARGS read each time; constructs without body lines inside macros, predefined symbols read after bodies that change them, and BINCLUDE across the 256-byte copy chunk and the 64 KiB record limit are included.'
+              ' IRPC over the empty string and SHIFT over every placement of empty arguments are included.')
 LEVEL_NOTE = ('Trusted: the reference expander (whole-identifier substitution, positional/keyword/default arguments, private labels per expansion). '
               'Arguments reaching string context are upper case (the manual: arguments are folded to upper case outside quotes unless -U).')
 RULE = 'construct program vs hand expansion; non-trivial = all'
